@@ -114,6 +114,13 @@ impl Visitor<Diagnostic> for SymbolTable<'_, Id, DummyNode> {
         node.recurse_visit(self)
     }
 
+    fn visit_edge_var_decl(&mut self, node: &EdgeVarDecl) -> Result<Self::Value, Diagnostic> {
+        // The edge-triggered inputs (R_EDGE and F_EDGE) are kept apart from
+        // the other variables. They are variables of the scope like the others.
+        self.add(&node.identifier, DummyNode {});
+        node.recurse_visit(self)
+    }
+
     fn visit_for(&mut self, node: &ironplc_dsl::textual::For) -> Result<(), Diagnostic> {
         // The control variable of the loop is a use of a variable
         if self.find(&node.control).is_none() {
